@@ -55,6 +55,9 @@ def ir_flow(prop, tier, seed, descs, own, models, level_note_assumptions, t0, ha
             extra_stages=None, neg_models=None, proofs=None):
     known = V.load_known()
     wd = V.workdir(prop)
+    # an integer outside TLC's 32-bit range in a trace can only be garbage produced by the code under test (vh.h writes a sentinel and an
+    # OutOfRange row): whichever property is being checked cannot hold on that execution
+    own = list(own) + ["OutOfRange"]
     stages = [dict(descs=descs, trace_module=trace_module, trace_cfg=trace_cfg, driver_of=driver_of or P.driver_of)] + (extra_stages or [])
     # ---- design models first (cheap): the specification itself satisfies the property for small constants
     mres = []
@@ -75,8 +78,9 @@ def ir_flow(prop, tier, seed, descs, own, models, level_note_assumptions, t0, ha
             raise V.Infra("negative control %s was not rejected by TLC: the design model is vacuous" % cfg)
     # ---- unbounded obligations (Apalache): (spec, invariant, expected to hold?)
     pres = []
-    for (spec_rel, inv, expect) in (proofs or []):
-        r = V.run_apalache(spec_rel, inv, expect)
+    for pr in (proofs or []):
+        spec_rel, inv, expect = pr[0], pr[1], pr[2]
+        r = V.run_apalache(spec_rel, inv, expect, **(pr[3] if len(pr) > 3 else {}))
         log("[proof] %-28s %-10s %s (%.0fs)" % (spec_rel, inv, ("proved" if r["proved"] else "refuted" if r["refuted"] else "NO RESULT"), r["wall"]))
         pres.append(r)
         if not r["as_expected"]:
@@ -169,7 +173,11 @@ def ir_flow(prop, tier, seed, descs, own, models, level_note_assumptions, t0, ha
         elif nviol == 12:
             log("... further violations of %s not listed individually" % prop)
         nviol += 1
+    seen_known = set()
     for rule, d, kf in knownhits:
+        if (rule, d) in seen_known:
+            continue
+        seen_known.add((rule, d))
         log("KNOWN-FINDING: property=%s %s (rule %s, descriptor %s)" % (prop, kf.get("what_fails", ""), rule, d))
     mstates = sum(m["states"] for m in mres)
     mgen = sum(m["generated"] for m in mres)
@@ -179,7 +187,7 @@ def ir_flow(prop, tier, seed, descs, own, models, level_note_assumptions, t0, ha
         samples=[x for st in stages for x in st["descs"][:3]][:6],
         design_models=[dict(cfg=m["cfg"], states=m["states"], generated=m["generated"], wall_s=round(m["wall"], 1)) for m in mres],
         negative_controls=[dict(cfg=m["cfg"], rejected=m["violated"]) for m in nres],
-        apalache_obligations=[dict(spec=r["spec"], inv=r["inv"], proved=r["proved"], refuted=r["refuted"], wall_s=round(r["wall"], 1)) for r in pres],
+        apalache_obligations=[dict(spec=r["spec"], inv=r["inv"], init=r.get("init"), length=r.get("length"), proved=r["proved"], refuted=r["refuted"], wall_s=round(r["wall"], 1)) for r in pres],
         trace_events=nlines, trace_spec=sorted(set(st["trace_module"] for st in stages)), monitors=sorted(own),
         coverage_counters=cov, other_rule_hits=others,
         known_findings_seen=[dict(rule=r, descriptor=d) for r, d, _ in knownhits],
@@ -322,7 +330,11 @@ def check_C07(tier, seed, t0):
     stage = dict(descs=kdescs, trace_module="TraceKrylov.tla", trace_cfg="TraceKrylov.cfg", driver_of=lambda d: "drv_krylov")
     return ir_flow("C07", tier, seed, descs, KRY + KRY_SEQ, models, COMMON_ASSUME + [
         "the call sequences executed on the factorization classes are ALL behaviours of spec/Krylov.tla up to the bounds logged under generated_behaviours (sampled where 'executed' < 'behaviours'); each is run on one matrix"],
-        t0, extra_stages=[stage], neg_models=[("MC_Krylov.tla", "Kry_neg.cfg", 2)], extra_cov=dict(generated_behaviours=kinfo))
+        t0, extra_stages=[stage], neg_models=[("MC_Krylov.tla", "Kry_neg.cfg", 2)], extra_cov=dict(generated_behaviours=kinfo),
+        # unbounded: the design invariants of the factorization object are inductive for every m and any number of calls (Apalache); TLC checks in
+        # Kry_arn / Kry_lan that every step of Krylov.tla is a step of the transcription Apalache works on (PROPERTY StepsAreApaSteps)
+        proofs=[("KrylovApa.tla", "IndInv", True), ("KrylovApa.tla", "IndInv", True, dict(init="IndInit", length=1)),
+                ("KrylovApa.tla", "TooStrong", False, dict(init="TooStrongInit", length=1))])
 
 
 C13_RULES = ["I:WorkBound", "I:KInRange", "I:ShiftInRange", "I:RestartsBounded", "G:ShiftBegin", "G:Shift", "G:NevAdj", "G:CompressH", "G:CompressV",
@@ -404,13 +416,14 @@ def check_C11(tier, seed, t0):
         trace_module="TraceKernel.tla", trace_cfg="TraceKernel.cfg", driver_of=lambda d: "drv_matop_" + [x.split("=")[1] for x in d.split(";") if x.startswith("part=")][0], extra_cov=dict(exhaustive=True))
 
 
-FIXED_AUX = {"C17": ["mode=lobpcg;count=1;seed=5;kfix=1"], "C15": ["mode=davidson;count=1;seed=3;dec=1"]}
+FIXED_AUX = {"C17": ["mode=lobpcg;count=1;seed=5;kfix=1"], "C15": ["mode=davidson;count=1;seed=3;dec=1"],
+             "C16": ["mode=svdmult;seed=1;mult=5;ncv=12"]}
 
 
-def aux_flow(prop, tier, seed, t0, mode, count, own, models, neg, notes, extra_stages=None, extra_cov=None):
+def aux_flow(prop, tier, seed, t0, mode, count, own, models, neg, notes, extra_stages=None, extra_cov=None, proofs=None):
     descs = ["mode=%s;count=%d;seed=%d" % (mode, count, seed * 10 + i) for i in range(n_of(tier, 4, 16))] + FIXED_AUX.get(prop, [])
     return ir_flow(prop, tier, seed, descs, own, models, COMMON_ASSUME[:1] + notes, t0, trace_module="TraceAux.tla", trace_cfg="TraceAux.cfg",
-                   driver_of=lambda d: "drv_aux", neg_models=neg, extra_stages=extra_stages, extra_cov=extra_cov)
+                   driver_of=lambda d: "drv_aux", neg_models=neg, extra_stages=extra_stages, extra_cov=extra_cov, proofs=proofs)
 
 
 def check_C15(tier, seed, t0):
@@ -441,7 +454,11 @@ def check_C16(tier, seed, t0):
         "generated behaviours: ALL call sequences (compute with 3 argument sets incl. one that stops partly converged, singular_values, matrix_U/V(k) for k below / at / above ncomp) "
         "of the length logged under generated_behaviours, each executed on one tall/wide/square dense, row-major or sparse matrix and compared call for call with a reference object",
         "runs: tall/wide/square, dense col-/row-major and sparse, prescribed singular values incl. exactly rank-deficient matrices, every solver used for two compute() calls "
-        "with different maxit/tol and compared bit for bit with a fresh solver"], extra_stages=[stage], extra_cov=dict(generated_behaviours=[dict(info, sequences=len(seqs))]))
+        "with different maxit/tol and compared bit for bit with a fresh solver",
+        "unbounded (Apalache): with the invalidation in compute() the read invariants are inductive for any number of calls, any nconv and any k; without it they are refuted within 4 calls"],
+        extra_stages=[stage], extra_cov=dict(generated_behaviours=[dict(info, sequences=len(seqs))]),
+        proofs=[("PartialSVDApa.tla", "IndInv", True), ("PartialSVDApa.tla", "IndInv", True, dict(init="IndInit", length=1)),
+                ("PartialSVDApa.tla", "ReadInv", False, dict(init="InitNoInval", length=4))])
 
 
 def check_C17(tier, seed, t0):
@@ -454,20 +471,20 @@ def check_C17(tier, seed, t0):
 
 
 def check_C20(tier, seed, t0):
-    descs = ["mode=mt;rounds=%d;seed=%d" % (n_of(tier, 8, 24), seed * 10 + i) for i in range(n_of(tier, 2, 8))]
+    descs = ["mode=mt;rounds=%d;seed=%d" % (n_of(tier, 12, 24), seed * 10 + i) for i in range(n_of(tier, 2, 8))]
     own = ["ConcurrentTraceIdentical", "ConcurrentResultsIdentical", "Abort", "UnknownRow"]
     models = [("Threads.tla", "Threads_own.cfg", 2), ("Threads.tla", "Threads_sharedprod.cfg", 2)]
     neg = [("Threads.tla", "Threads_sharedsolve.cfg", 2)]
     extra = []
     if tier == "thorough":
         # auxiliary observation: the same driver under ThreadSanitizer (a report ends the process with exit code 66)
-        extra = [dict(descs=["mode=mt;rounds=8;seed=%d" % (seed * 10 + 7)], trace_module="TraceAux.tla", trace_cfg="TraceAux.cfg", driver_of=lambda d: "drv_mt_tsan",
+        extra = [dict(descs=["mode=mt;rounds=12;seed=%d" % (seed * 10 + 7)], trace_module="TraceAux.tla", trace_cfg="TraceAux.cfg", driver_of=lambda d: "drv_mt_tsan",
                       env={"TSAN_OPTIONS": "exitcode=66"}, sanitizer="ThreadSanitizerReport")]
         own = own + ["ThreadSanitizerReport"]
     return ir_flow("C20", tier, seed, descs, own, models, COMMON_ASSUME[:1] + [
         "design model: all interleavings of 3 instances over the location map of the code's mutable state; own operators and one shared product wrapper are conflict free, "
         "a shared shift-solve wrapper is a conflict (negative control)",
-        "runs: 2/4/8/16 threads, private operators or one shared (previously unused) Dense/Sparse Sym/Gen product wrapper, generic and breakdown-heavy (low rank) jobs, "
+        "runs: 2/4/8/16 threads, Lanczos/Arnoldi and Davidson solvers, private operators or one shared (previously unused) Dense/Sparse Sym/Gen product wrapper, generic and breakdown-heavy (low rank) jobs, "
         "randomised start; every job's hook-event stream digest and result digest must equal those of the same job run alone",
         "formal data-race freedom (a race that writes equal values) is not decided by value traces; the thorough tier additionally runs the driver under ThreadSanitizer"], t0,
         trace_module="TraceAux.tla", trace_cfg="TraceAux.cfg", driver_of=lambda d: "drv_mt", neg_models=neg, extra_stages=extra)
